@@ -68,16 +68,17 @@ def corpus():
     return out
 
 
-def calc(activation, formula, atoms, mass, fl, cd, fr, t, rests, reuse=False):
+def calc(activation, formula, atoms, mass, fl, cd, fr, t, rests, reuse=False, pre_target=1e-3):
     from .. import pyside
     s = activation.Sample(formula(pyside.struct_objs(atoms)), mass)
-    if reuse:   # the Sample was used for another calculation (and a decay_time) before
+    if reuse:   # the Sample was used for another calculation (and a decay_time for the same target) before
         s.calculate_activation(activation.ActivationEnvironment(fluence=fl * 10, Cd_ratio=3.0, fast_ratio=2.0),
                                exposure=t * 2, rest_times=[7.0, 0.5])
-        try:
-            s.decay_time(1e-3)
-        except Exception:  # noqa
-            pass
+        for tg in (1e-3, pre_target):
+            try:
+                s.decay_time(tg)
+            except Exception:  # noqa
+                pass
     env = activation.ActivationEnvironment(fluence=fl, Cd_ratio=cd, fast_ratio=fr)
     s.calculate_activation(env, exposure=t, rest_times=list(rests))
     return s
@@ -132,7 +133,9 @@ def check_cases(run: Run, R, cases, activation):
             s0 = calc(activation, formula, atoms, mass, fl, cd, fr, t, [0.0])
             a0 = [(R.index_of[id(k)], v[0]) for k, v in s0.activity.items()]
             s1 = calc(activation, formula, atoms, mass, fl, cd, fr, t, rests)
-            s2 = calc(activation, formula, atoms, mass, fl, cd, fr, t, rests2, reuse=True)
+            pre = x * math.fsum(v[0] for v in s0.activity.values())
+            s2 = calc(activation, formula, atoms, mass, fl, cd, fr, t, rests2, reuse=True,
+                      pre_target=pre if pre > 0 and pre != float("inf") else 1e-3)
         except Exception as e:  # noqa   (C14's business; recorded there too)
             run.count(key=repr(case), nontrivial=False, tag="stream:activation-failed")
             continue
@@ -147,6 +150,17 @@ def check_cases(run: Run, R, cases, activation):
             run.count(key=repr(case), nontrivial=False, tag="stream:no-activity")
             continue
         r1, r2 = decay(s1, target), decay(s2, target)
+        # another sample is activated in between: the answer for this one must not move
+        try:
+            other = activation.Sample(formula("Au" if atoms[0][1][0] != 79 else "Co"), 2.5)
+            other.calculate_activation(activation.ActivationEnvironment(fluence=3e9, Cd_ratio=0., fast_ratio=0.),
+                                       exposure=7.0, rest_times=[0.0, 2.0])
+            r1b = decay(s1, target)
+        except Exception:  # noqa
+            r1b = r1
+        if r1b[0] != r1[0] or (r1[0] == "ok" and not same_time(r1b[1], r1[1])):
+            run.violation("decay_time of a sample changed after another sample was activated: %r then %r" % (r1, r1b),
+                          dict(inp, target=target), clause="independent-of-other-samples")
         rem = getattr(s1, "_activity_at_removal", None)
         feed = [(R.index_of[id(k)], v) for k, v in rem.items()] if rem is not None else a0
         half = {i: R.fields(i)["Thalf_hrs"] for i, _ in feed}
